@@ -1,8 +1,11 @@
-import CJ.Model.Liveness
+import CJ.Model.LivenessX
 import CJ.Drv.Util
 /-! Driver for the liveness-cache model.
 `cache|<durLive>|<capLive>|<durNonLive>|<capNonLive>|<op>;<op>;…`
-  dur: `-` (empty string), `E` (ParseDuration error) or nanoseconds; op: `q,<now>,<addr>,<port>,<probe 0/1>` or `c,<now>`
+  dur: `-` (empty string), `E` (ParseDuration error) or nanoseconds;
+  op: `q,<now>,<addr>,<port>,<probe 0/1>,<error kind>` or `c,<now>`; error kind of the probe result: `-` nil, `n` NotLive,
+  `w` wraps NotLive, `l` ErrLiveHost, `o` other, `c` context.Canceled, `d` context.DeadlineExceeded
+  out: `c0`/`c1` (cached), `p<0/1><error kind>` (probed: the pair the tester returned), `clr`
 → `<construction>|<out>:<lenLive>,<lenNonLive>;…|L:<entries>/<lru order>|N:<entries>/<lru order>` -/
 namespace CJ.Drv.Liveness
 open CJ.Liveness CJ.Drv
@@ -10,11 +13,20 @@ open CJ.Liveness CJ.Drv
 def parseDur (s : String) : Option Dur :=
   if s == "-" then some .unset else if s == "E" then some .bad else (s.toInt?).map .ok
 
-def parseOp (s : String) : Option Op :=
+def parseErr : String → Option ProbeErr
+  | "-" => some .nil | "n" => some .notLive | "w" => some .wrapsNotLive | "l" => some .liveHost
+  | "o" => some .other | "c" => some .ctxCanceled | "d" => some .ctxDeadline
+  | _ => none
+
+def showErr : ProbeErr → String
+  | .nil => "-" | .notLive => "n" | .wrapsNotLive => "w" | .liveHost => "l"
+  | .other => "o" | .ctxCanceled => "c" | .ctxDeadline => "d"
+
+def parseOp (s : String) : Option XOp :=
   match s.splitOn "," with
-  | ["q", now, a, port, p] => do
+  | ["q", now, a, port, p, e] => do
     let _ ← port.toNat?          -- the port is not part of the cache key
-    some (.query (← now.toInt?) a (← parseBool p))
+    some (.query (← now.toInt?) a { live := ← parseBool p, err := ← parseErr e })
   | ["c", now] => do some (.clear (← now.toInt?))
   | _ => none
 
@@ -41,9 +53,9 @@ def lens : Tester → String
   | .uncached => "-,-"
   | .cached l n => showLen l ++ "," ++ showLen n
 
-def showOut : Out → String
+def showOut : XOut → String
   | .cached true => "c1" | .cached false => "c0"
-  | .probed true => "p1" | .probed false => "p0"
+  | .probed r => (if r.live then "p1" else "p0") ++ showErr r.err
   | .cleared => "clr"
 
 def dumpCache : Option Cache → String
@@ -66,7 +78,7 @@ def handle (args : List String) : Option String :=
     let ops ← (fields ops ";").mapM parseOp
     let t0 := new cfg
     let (t, outs) := ops.foldl (fun (acc : Tester × List String) o =>
-      let (t', out) := step acc.1 o
+      let (t', out) := stepX acc.1 o
       (t', (showOut out ++ ":" ++ lens t') :: acc.2)) (t0.1, [])
     some (showNew t0 ++ "|" ++ joinWith ";" outs.reverse ++ "|" ++ dump t)
   | _ => none
